@@ -131,9 +131,63 @@ impl OutFault {
     }
 }
 
+/// A fault at a byte offset of a real file (injected by the armed `zysim` shim).
+#[derive(Clone, Copy, Debug, PartialEq, Eq)]
+pub enum FileFault {
+    /// EINTR once: must be invisible
+    Interrupted,
+    /// a hard errno once
+    HardOnce(i32),
+    /// a hard errno for ever
+    HardForever(i32),
+}
+
+pub const EIO: i32 = 5;
+pub const EACCES: i32 = 13;
+pub const ENOSPC: i32 = 28;
+pub const EPIPE: i32 = 32;
+
+impl FileFault {
+    pub fn all_read() -> Vec<FileFault> {
+        vec![FileFault::Interrupted, FileFault::HardOnce(EIO), FileFault::HardForever(EACCES)]
+    }
+    pub fn all_write() -> Vec<FileFault> {
+        vec![FileFault::Interrupted, FileFault::HardOnce(EIO), FileFault::HardOnce(EPIPE), FileFault::HardForever(ENOSPC)]
+    }
+    pub fn label(self) -> String {
+        match self {
+            | FileFault::Interrupted => "eintr".into(),
+            | FileFault::HardOnce(errno) => format!("once:{errno}"),
+            | FileFault::HardForever(errno) => format!("forever:{errno}"),
+        }
+    }
+    fn parse(text: &str) -> Option<Self> {
+        if text == "eintr" {
+            return Some(FileFault::Interrupted);
+        }
+        let (head, errno) = text.split_once(':')?;
+        let errno: i32 = errno.parse().ok()?;
+        match head {
+            | "once" => Some(FileFault::HardOnce(errno)),
+            | "forever" => Some(FileFault::HardForever(errno)),
+            | _ => None,
+        }
+    }
+    /// (kind, errno) as the shim wants them
+    pub fn shim(self) -> (i32, i32) {
+        match self {
+            | FileFault::Interrupted => (0, 4),
+            | FileFault::HardOnce(errno) => (1, errno),
+            | FileFault::HardForever(errno) => (2, errno),
+        }
+    }
+}
+
 /// The fault plan of one execution.
 #[derive(Clone, Debug, PartialEq)]
 pub struct Plan {
+    /// (file name in the scratch directory, is_write, byte offset, fault)
+    pub file_faults: Vec<(String, bool, usize, FileFault)>,
     /// (byte offset of stdin, fault): fires when the stream position reaches the offset
     pub in_faults: Vec<(usize, InFault)>,
     /// stdin ends here although more data exists
@@ -152,6 +206,7 @@ pub struct Plan {
 impl Plan {
     pub fn fault_free(rng: &mut Rng) -> Self {
         Self {
+            file_faults: vec![],
             in_faults: vec![],
             early_eof: None,
             out_faults: vec![],
@@ -162,7 +217,11 @@ impl Plan {
         }
     }
     pub fn is_empty(&self) -> bool {
-        self.in_faults.is_empty() && self.early_eof.is_none() && self.out_faults.is_empty() && self.flush_fails_from.is_none()
+        self.in_faults.is_empty()
+            && self.early_eof.is_none()
+            && self.out_faults.is_empty()
+            && self.flush_fails_from.is_none()
+            && self.file_faults.is_empty()
     }
     pub fn with_in_fault(&self, position: usize, fault: InFault) -> Self {
         let mut plan = self.clone();
@@ -182,6 +241,11 @@ impl Plan {
     pub fn with_flush_failing_from(&self, position: usize) -> Self {
         let mut plan = self.clone();
         plan.flush_fails_from = Some((position, ErrKind::Other));
+        plan
+    }
+    pub fn with_file_fault(&self, name: &str, write: bool, position: usize, fault: FileFault) -> Self {
+        let mut plan = self.clone();
+        plan.file_faults.push((name.to_string(), write, position, fault));
         plan
     }
     pub fn with_chunks(&self, chunk: usize) -> Self {
@@ -208,6 +272,15 @@ impl Plan {
         if rng.chance(1, 6) {
             plan.flush_fails_from = Some((rng.below(out_span.max(1)), *rng.pick(&ErrKind::ALL)));
         }
+        for _ in 0..rng.below(3) {
+            if rng.chance(1, 2) {
+                let name = *rng.pick(&["in0.txt", "in1.txt"]);
+                plan.file_faults.push((name.to_string(), false, rng.below(16), *rng.pick(&FileFault::all_read())));
+            } else {
+                let name = *rng.pick(&["out0.txt", "out1.txt"]);
+                plan.file_faults.push((name.to_string(), true, rng.below(24), *rng.pick(&FileFault::all_write())));
+            }
+        }
         plan.in_faults.sort_by_key(|(position, _)| *position);
         plan.out_faults.sort_by_key(|(position, _)| *position);
         plan
@@ -222,6 +295,11 @@ impl Plan {
         for index in 0..self.out_faults.len() {
             let mut plan = self.clone();
             plan.out_faults.remove(index);
+            out.push(plan);
+        }
+        for index in 0..self.file_faults.len() {
+            let mut plan = self.clone();
+            plan.file_faults.remove(index);
             out.push(plan);
         }
         if self.early_eof.is_some() {
@@ -244,6 +322,7 @@ impl Plan {
     }
     pub fn to_json(&self) -> Value {
         json!({
+            "file_faults": self.file_faults.iter().map(|(n, w, p, f)| json!([n, if *w { "w" } else { "r" }, p, f.label()])).collect::<Vec<_>>(),
             "in_faults": self.in_faults.iter().map(|(p, f)| json!([p, f.label()])).collect::<Vec<_>>(),
             "early_eof": self.early_eof,
             "out_faults": self.out_faults.iter().map(|(p, f)| json!([p, f.label()])).collect::<Vec<_>>(),
@@ -253,6 +332,21 @@ impl Plan {
     }
     pub fn from_json(value: &Value) -> Option<Self> {
         Some(Self {
+            file_faults: value["file_faults"]
+                .as_array()
+                .map(|list| {
+                    list.iter()
+                        .map(|e| {
+                            Some((
+                                e[0].as_str()?.to_string(),
+                                e[1].as_str()? == "w",
+                                e[2].as_u64()? as usize,
+                                FileFault::parse(e[3].as_str()?)?,
+                            ))
+                        })
+                        .collect::<Option<Vec<_>>>()
+                })
+                .unwrap_or(Some(vec![]))?,
             in_faults: value["in_faults"]
                 .as_array()?
                 .iter()
